@@ -47,6 +47,15 @@ def reserve_arg_names(a: ast.AST):
             argument_var_counter = max(argument_var_counter, int(m.group(1)) + 1)
 
 
+def _other_parameter_names(args: ast.arguments) -> List[str]:
+    "Names of the parameters of a lambda that are not plain positional-or-keyword ones"
+    return (
+        [a.arg for a in args.posonlyargs + args.kwonlyargs]
+        + ([args.vararg.arg] if args.vararg else [])
+        + ([args.kwarg.arg] if args.kwarg else [])
+    )
+
+
 def make_args_unique(a: ast.Lambda) -> ast.Lambda:
     """
     Replaces the lambda with a new lambda, with unique arguments names
@@ -77,13 +86,15 @@ def make_args_unique(a: ast.Lambda) -> ast.Lambda:
                 self.visit(d) if d is not None else None for d in node.args.kw_defaults
             ]
 
-            for old, new in mapping:
+            # The other kinds of parameter keep their name, and hide an outer one all the same
+            others = [(n, n) for n in _other_parameter_names(node.args)]
+            for old, new in mapping + others:
                 self._arg_stack.append((old, new))
 
             node.body = self.visit(node.body)
 
             node.args.args = [ast.arg(arg=new, annotation=None) for old, new in mapping]
-            for _ in mapping:
+            for _ in mapping + others:
                 self._arg_stack.pop()
 
             return node
@@ -651,8 +662,8 @@ class simplify_chained_calls(FuncADLNodeTransformer):
             ]
 
         with stack_frame(self._arg_stack):
-            for a in node.args.args:
-                self._arg_stack.define_name(a.arg, ast.Name(a.arg, ast.Load()))
+            for a_name in [a.arg for a in node.args.args] + _other_parameter_names(node.args):
+                self._arg_stack.define_name(a_name, ast.Name(a_name, ast.Load()))
             new_body = self.visit(node.body)
 
         return ast.Lambda(args=new_args, body=new_body)
